@@ -2083,6 +2083,10 @@ REQUIRED = (
 )
 
 
+def json_key(j):
+    return j["unit"] + repr(sorted(j["params"].items(), key=lambda kv: kv[0]))
+
+
 def main(run):
     q = run.tier == "quick"
     js = [dict(j, cfg="asan64") for j in jobs(run.tier)]
@@ -2098,6 +2102,10 @@ def main(run):
                 continue
             keep.append(j)
         js32 = keep
+        # two-word plain moduli exist in this configuration only at 33..64 bits: keep that curve in the reduced set
+        have = {json_key(j) for j in js32}
+        js32 += [j for j in jobs(run.tier) if j["unit"] == "c06:unit_ss" and j["params"]["bits"] == 64
+                 and json_key(j) not in have]
     js += [dict(j, cfg="asan32") for j in js32]
     # long jobs first
     weight = {"c06:unit_std": 3, "c06:unit_b2": 2, "c06:unit_ss": 2, "c06:unit_sp_pairs": 1}
